@@ -40,7 +40,14 @@ pub fn gen(r: &mut Rng) -> Value {
             } },
         3 => {
             let (n, m) = (r.below(5), 1 + r.below(2));
-            json!({"kind": "split", "text": mk(r, n), "sep": mk(r, m)})
+            if r.chance(1, 3) {
+                // lines: texts with \n / \r\n / lone \r split at a line break
+                let lp = ["a", "b", "\n", "\r\n", "\r", " ", "x"];
+                let text: String = (0..(1 + r.below(6))).map(|_| r.pick(&lp).to_string()).collect();
+                json!({"kind": "split", "text": text, "sep": r.pick(&["\n", "\r\n", "\r"])})
+            } else {
+                json!({"kind": "split", "text": mk(r, n), "sep": mk(r, m)})
+            }
         }
         _ => {
             let (x, y, z) = (r.below(5), r.below(3), r.below(3));
@@ -60,7 +67,7 @@ pub fn gen(r: &mut Rng) -> Value {
 }
 
 fn q(s: &str) -> String {
-    format!("\"{}\"", s.replace('\t', "\\t"))
+    format!("\"{}\"", s.replace('\t', "\\t").replace('\n', "\\n").replace('\r', "\\r"))
 }
 
 fn run_script(script: &str) -> Result<Context, String> {
@@ -166,12 +173,29 @@ pub fn run(input: &Value) -> Option<Value> {
         }
         "split" => {
             let (text, sep) = (input["text"].as_str()?, input["sep"].as_str()?);
-            let script = format!("h = split {} {}\nn = array_length ${{h}}\nj = array_join ${{h}} {}", q(text), q(sep), q(sep));
+            let pieces: Vec<&str> = text.split(sep).collect();
+            let line_breaks = sep.contains('\n') || sep.contains('\r') || text.contains('\n') || text.contains('\r');
+            // (a separator / text with line breaks cannot go through the script-implemented array_join - open C09 class
+            // argument-containing-line-break -, so the pieces are read back one by one)
+            let mut script = format!("h = split {} {}\nn = array_length ${{h}}\n", q(text), q(sep));
+            if line_breaks {
+                for k in 0..pieces.len() { script.push_str(&format!("p{} = array_get ${{h}} {}\n", k, k)); }
+            } else {
+                script.push_str(&format!("j = array_join ${{h}} {}", q(sep)));
+            }
             let ctx = match run_script(&script) { Ok(c) => c, Err(e) => return Some(json!({"script": script, "error": e})) };
             let get = |k: &str| ctx.variables.get(k).cloned();
-            let pieces: Vec<&str> = text.split(sep).collect();
             if get("n") != Some(pieces.len().to_string()) {
                 return Some(json!({"script": script, "what": "number of split pieces differs from the plain split", "model": pieces, "real": get("n")}));
+            }
+            if line_breaks {
+                for (k, want) in pieces.iter().enumerate() {
+                    // (an empty piece is stored as an empty text: array_get returns it as such)
+                    if get(&format!("p{}", k)).unwrap_or_default() != *want {
+                        return Some(json!({"script": script, "what": "a split piece differs from the plain split (the pieces joined by the separator must give back the text)", "index": k, "model": want, "real": get(&format!("p{}", k))}));
+                    }
+                }
+                return None;
             }
             // the pieces joined by the separator give back the text
             if get("j").unwrap_or_default() != text {
